@@ -38,6 +38,12 @@ RowOK(atoms) ==
   /\ E.hex[E.root] = E.roothex
   /\ {E.proofs[i].pos : i \in 1..Len(E.proofs)} = 1..Len(atoms)     \* a proof for every position
   /\ \A i \in 1..Len(E.proofs) : ProofRowOK(E.proofs[i], atoms, leaves, nodes, root)
+  \* Transactions / ChangeLogSlice / DeputyNodes .MerkleRootSha() of real objects = the specified root of their hashes
+  /\ Len(E.fam) = 3
+  /\ \A f \in 1..Len(E.fam) :
+       /\ Len(E.fam[f].leaves) = Len(atoms)
+       /\ \A i, j \in 1..Len(atoms) : (atoms[i] = atoms[j]) <=> (E.fam[f].leaves[i] = E.fam[f].leaves[j])
+       /\ E.fam[f].root = Root(OrH, E.empty, E.fam[f].leaves)
   /\ \A i \in 1..Len(E.absent) : E.absent[i][2] = (\A j \in 1..Len(nodes) : nodes[j] # E.absent[i][1])
   /\ (atoms \in DOMAIN ro => ro[atoms] = E.roothex)       \* the root depends on the ordered leaf list only
   /\ (E.roothex \in DOMAIN co => co[E.roothex] = atoms)   \* and binds it
